@@ -143,6 +143,16 @@ BuilderWellFormed == WellFormed(M)
 
 (* C27, second half: nothing defined in another module is under test -- at every moment *)
 NothingForeignUnderTest == \A v \in Visibilities : \A i \in ut[v] : ~Foreign(M, i)
+(* C27: an inherited, not overridden member (method, static method, class method, property  *)
+(* of a base class of the SUT or of another module) is never under test via the inheriting  *)
+(* class: __analyse_method keeps only what get_class_that_defined_method attributes to the  *)
+(* analysed class itself                                                                     *)
+ViewsNeverUnderTest == \A v \in Visibilities : \A i \in ut[v] : ~IsView(M, i)
+(* ... while a member of a SUT base class is under test via that base class, which is       *)
+(* reached through the work list even if only the subclass were bound in the namespace      *)
+BaseMembersViaBase ==
+  pc = "done" => \A v \in Visibilities : \A i \in DOMAIN M :
+     (M[i].inh = "sut" /\ CodeInclude(M, M[i].src, v, modign, Quirks)) => M[i].src \in ut[v]
 (* ignored by configuration => never under test *)
 IgnoredNeverUnderTest == \A v \in Visibilities : \A i \in ut[v] : ~Ignored(M, i, modign)
 (* relaxing the visibility never removes anything *)
